@@ -82,8 +82,16 @@ def histories(draw, tier):
     main_meta = draw(st.sampled_from(["none", "poetry", "setup", "pdm"]))
     for _ in range(n):
         r = draw(st.integers(0, 9))
-        if r <= 6:
+        if r <= 6 and draw(st.integers(0, 7)) == 0:
+            # the addressed directory exists already although nothing was generated into it: empty, or holding only a dot file / a
+            # sub-directory with one
+            steps.append({"op": "mkdir", "doc": draw(st.integers(0, n_docs - 1)), "meta": main_meta, "target": draw(st.sampled_from(["output_path", "output_path", "default"])),
+                          "content": draw(st.sampled_from(["empty", "empty", "dotfile", "subdir_with_file"]))})
+        elif r <= 6:
             steps.append({"op": "generate", "doc": draw(st.integers(0, n_docs - 1)),
+                          # options that change what the fixed support files contain may differ from run to run
+                          "options": {"docstrings_on_attributes": draw(st.booleans()), "literal_enums": draw(st.booleans())},
+                          "hooks": draw(st.integers(0, 5)) == 0,
                           "meta": main_meta if draw(st.integers(0, 4)) > 0 else draw(st.sampled_from(["none", "poetry", "setup", "pdm"])),
                           "overwrite": draw(st.booleans()), "target": draw(st.sampled_from(["output_path", "output_path", "default"])),
                           # a module name given through the class_overrides option is a file name too
@@ -164,6 +172,7 @@ def run(case, ctx):
         f.write('{"post_hooks": []}')
     # model: directory -> {"meta":…, "doc":…, "user": {rel: bytes}}
     model: dict[str, dict] = {}
+    pre_user: dict[str, dict] = {}
     gens_per_dir: dict[str, set] = {}
     traversal = any(any(t in json.dumps(d) for t in ("..", "/abs", "C:\\\\", "%2e")) for d in case["docs"])
     try:
@@ -175,7 +184,7 @@ def run(case, ctx):
                 with open(p, "wb") as f:
                     f.write(b"S" + str(si).encode())
                 continue
-            doc = case["docs"][step.get("doc", 0) % len(case["docs"])] if step["op"] == "generate" else None
+            doc = case["docs"][step.get("doc", 0) % len(case["docs"])] if step["op"] in ("generate", "mkdir") else None
             # which directory does this step address?
             if step["target"] == "output_path":
                 target = os.path.join(sandbox, "explicit_out")
@@ -186,7 +195,7 @@ def run(case, ctx):
                     pn = _project_name(title)
                 except Exception:
                     continue
-                if step["op"] == "generate":
+                if step["op"] in ("generate", "mkdir"):
                     name = pn.replace("-", "_") if step["meta"] == "none" else pn
                     target = os.path.join(sandbox, name)
                 else:
@@ -194,6 +203,18 @@ def run(case, ctx):
                     if not cands:
                         continue
                     target = sorted(cands)[0]
+            if step["op"] == "mkdir":
+                if not os.path.realpath(target).startswith(os.path.realpath(sandbox) + os.sep) or os.path.exists(target):
+                    continue
+                os.makedirs(target)
+                rel_ = {"dotfile": ".keep", "subdir_with_file": os.path.join("cache", ".gitkeep")}.get(step["content"])
+                if rel_:
+                    os.makedirs(os.path.dirname(os.path.join(target, rel_)), exist_ok=True)
+                    with open(os.path.join(target, rel_), "wb") as f:
+                        f.write(b"kept")
+                    pre_user.setdefault(target, {})[rel_] = b"kept"     # the user's, from before the first generation
+                ctx.label("preexisting_directory:" + step["content"])
+                continue
             if step["op"] == "user_file":
                 st_ = model.get(target)
                 if not st_ or not os.path.isdir(target):
@@ -205,7 +226,7 @@ def run(case, ctx):
                         base = os.path.join(target, subs[0])
                 p = os.path.join(base, step["name"])
                 os.makedirs(os.path.dirname(p), exist_ok=True)
-                data = f"user data {si}".encode()
+                data = f"user data {si}".encode() if not step["name"].endswith(".py") else f"import os,sys\nx = {{  'a':{si} }}\n".encode()
                 with open(p, "wb") as f:
                     f.write(data)
                 st_["user"][os.path.relpath(p, target)] = data
@@ -214,20 +235,27 @@ def run(case, ctx):
             before_out = _snap_outside(outer, [target])
             before_target = sut.snapshot(target) if os.path.isdir(target) else None
             step_cfg = cfgp
+            cfg_obj = {**({} if step.get("hooks") else {"post_hooks": []}), **(step.get("options") or {})}
+            if step.get("hooks"):
+                ctx.label("default_post_hooks")
             if step.get("override_module"):
                 names_ = list((doc.get("components") or {}).get("schemas") or {})
                 if names_:
-                    step_cfg = os.path.join(srcdir, f"cfg_step{si}.json")
-                    with open(step_cfg, "w") as f:
-                        json.dump({"post_hooks": [], "class_overrides": {names_[0]: {"module_name": step["override_module"]}}}, f)
+                    cfg_obj["class_overrides"] = {names_[0]: {"module_name": step["override_module"]}}
                     ctx.label("module_name_override")
+            if cfg_obj != {"post_hooks": []}:
+                step_cfg = os.path.join(srcdir, f"cfg_step{si}.json")
+                with open(step_cfg, "w") as f:
+                    json.dump(cfg_obj, f)
             args = ["generate", "--path", doc_paths[step["doc"] % len(doc_paths)], "--meta", step["meta"], "--config", step_cfg]
             if step["overwrite"]:
                 args.append("--overwrite")
             if step["target"] == "output_path":
                 args += ["--output-path", target]
             code, so, se, exc = sut.cli(args, cwd=sandbox)
-            site = {"meta": step["meta"], "overwrite": bool(step["overwrite"]), "target": step["target"], "existing": before_target is not None}
+            site = {"meta": step["meta"], "overwrite": bool(step["overwrite"]), "target": step["target"], "existing": before_target is not None,
+                    **({"default_post_hooks": True} if step.get("hooks") else {}),
+                    **({"never_generated_into": True} if before_target is not None and target not in model else {})}
             if exc is not None:
                 ctx.label("cli_crash:" + type(exc).__name__)   # C06's verdict; containment is still checked below
             after_out = _snap_outside(outer, [target])
@@ -257,7 +285,7 @@ def run(case, ctx):
                 pname = "?"
             same_flavour = prev is None or (prev["meta"] == step["meta"] and prev["pname"] == pname)
             if prev is None:
-                model[target] = {"meta": step["meta"], "doc": step["doc"], "user": {}, "pname": pname}
+                model[target] = {"meta": step["meta"], "doc": step["doc"], "user": dict(pre_user.get(target) or {}), "pname": pname}
             else:
                 prev["doc"] = step["doc"]
                 if not same_flavour:
